@@ -266,11 +266,9 @@ func ruleRegArg(c *Ctx) {
 	// the element types of the package-level maps of functions (the registries)
 	var elems []types.Type
 	elemOf := map[string]string{}
-	for _, g := range moduleGlobals(P) {
-		if mt, isM := g.Type().(*types.Pointer).Elem().Underlying().(*types.Map); isM && isSignature(mt.Elem()) {
-			elems = append(elems, mt.Elem())
-			elemOf[typeKey(mt.Elem())] = globalKey(g)
-		}
+	for _, re := range registryElemTypes(P) {
+		elems = append(elems, re.elem)
+		elemOf[typeKey(re.elem)] = re.name
 	}
 	n := 0
 	for _, fn := range P.ModuleFuncs() {
@@ -1109,4 +1107,30 @@ func ruleCDNum(c *Ctx) {
 		}
 		c.Check(bad == "", key, P.pos(ct.M["Read"].Pos()), fmt.Sprintf("%d functions reachable from the codec's methods: no decimal re-derivation or rounding routine", n), bad+": the value decoded or written is no longer the exact image of the other side for every value")
 	}
+}
+
+type registryElem struct {
+	elem types.Type
+	name string
+}
+
+// registryElemTypes: the element types of the package-level maps of functions (the registries), whether the
+// map is a package-level variable itself or a field of a package-level struct that bundles it with its lock.
+func registryElemTypes(P *Program) []registryElem {
+	var out []registryElem
+	for _, g := range moduleGlobals(P) {
+		t := g.Type().(*types.Pointer).Elem()
+		if mt, isM := t.Underlying().(*types.Map); isM && isSignature(mt.Elem()) {
+			out = append(out, registryElem{mt.Elem(), globalKey(g)})
+			continue
+		}
+		if st, isS := t.Underlying().(*types.Struct); isS {
+			for i := 0; i < st.NumFields(); i++ {
+				if mt, isM := st.Field(i).Type().Underlying().(*types.Map); isM && isSignature(mt.Elem()) {
+					out = append(out, registryElem{mt.Elem(), globalKey(g) + "." + st.Field(i).Name()})
+				}
+			}
+		}
+	}
+	return out
 }
